@@ -368,7 +368,7 @@ class C07(SessionProp):
 
 
 T_INB = G.Table([
-    (14, G.o_inpub), (8, G.o_inpub_q2), (10, G.o_inrel), (4, G.o_inpub_cut), (2, G.o_arm), (2, G.o_lose_reconnect_persist), (2, G.o_lose_reconnect_clean),
+    (14, G.o_inpub), (8, G.o_inpub_q2), (10, G.o_inrel), (4, G.o_inpub_cut), (2, G.o_arm), (1, G.o_inpub_huge), (2, G.o_inpub_q2_burst), (2, G.o_lose_reconnect_persist), (2, G.o_lose_reconnect_clean),
     (1, G.o_handlers), (1, G.o_publish), (1, G.o_subscribe), (1, G.o_fire), (1, G.o_ack_good),
 ])
 
@@ -378,6 +378,14 @@ class C06(SessionProp):
     monitor = staticmethod(M.mon_c06)
     table = T_INB
     profiles = (1, 3)
+
+    def strategy(self, tier):
+        base = SessionProp.strategy(self, tier)
+
+        def big(case):
+            cfg, ops = case
+            return (dict(cfg, big=True), ops)
+        return base.map(big)
     rule = ("Histories of inbound PUBLISH (QoS 0/1/2, DUP, RETAIN, ids from a pool of three so that they are "
             "reused and interleaved, topics incl. non-ASCII and 300 bytes, payloads 0..100 kB) and PUBREL (oldest/"
             "newest/k-th stored, repeated, unknown id), repeats of a QoS 2 PUBLISH before its PUBREL, loss + clean/"
@@ -473,7 +481,8 @@ def o_retrytail(ad, a, b, c):
 T_RETRY = G.Table([
     (8, G.o_publish_q12), (4, G.o_subscribe), (4, G.o_unsubscribe), (12, G.o_fire_many), (3, G.o_advance),
     (4, G.o_pubrec), (2, G.o_ack_good), (2, G.o_timeout), (2, G.o_bandwidth), (1, G.o_window),
-    (1, G.o_lose_reconnect_persist), (1, o_retrytail), (1, G.o_publish), (2, G.o_resume_with_publish),
+    (1, G.o_lose_reconnect_persist), (1, o_retrytail), (1, G.o_publish), (2, G.o_resume_with_publish), (3, G.o_connack_ok),
+    (1, G.o_reconnect_noack),
 ])
 
 
@@ -482,7 +491,7 @@ class C08(SessionProp):
     monitor = staticmethod(M.mon_c08)
     table = T_RETRY
     max_words = 45
-    pre_kwargs = dict(keepalives=(0, 0, 0, 0, 60))
+    pre_kwargs = dict(keepalives=(0, 0, 0, 0, 60), connack=(True, True, False))
     rule = ("Histories over QoS 1/2 publishes (payload 0..20 kB), subscribe, unsubscribe, PUBREC (so that PUBREL "
             "is outstanding), runs of 1..12 timer expiries, setTimeout 1..1024, setBandwith 1..1e7 x factor 1..4, "
             "both protocol versions, acks for other packets, window changes, persistent reconnects, and a retry "
@@ -1081,6 +1090,7 @@ T_STREAM = G.Table([
 ])
 T_SETUP = G.Table([
     (10, G.o_publish_q12), (3, G.o_publish_q0), (4, G.o_subscribe), (3, G.o_unsubscribe), (2, G.o_pubrec), (1, G.o_inpub_q2),
+    (1, G.o_subscribe_many),
 ])
 
 
@@ -1314,6 +1324,7 @@ class C03(SessionProp):
         specs = [("short", i, j, self.max_exhaustive_bytes) for i in range(len(self.SHORT)) for j in range(2)]
         specs += [("connack", k) for k in range(2)]
         specs += [("long", i) for i in range(4 if tier == "quick" else 8)]
+        specs += [("bigsuback", i) for i in range(2 if tier == "quick" else 6)]
         if tier != "quick":
             specs += [("huge", i) for i in range(2)]      # 4-byte remaining length (2.1 MB payload)
         return specs
@@ -1329,6 +1340,12 @@ class C03(SessionProp):
         elif spec[0] == "connack":
             setup = [("build", 0), ("handlers", 0, 7), ("connect", 0, 7 * spec[1], 1, 0), ("publish", 0, 1)]
             stream = [("rx", 0, "CONNACK", 0, 1), ("rx", 0, "PUBACK", 0, 0, 0), ("rx", 0, "PUBLISH", 0, 0, 0)]
+        elif spec[0] == "bigsuback":
+            # the only broker packets besides PUBLISH that can need a two-byte remaining length
+            n_topics = [126, 127, 130, 200, 253, 254][spec[1] % 6]
+            cfg = dict(profile=3 if spec[1] % 2 == 0 else 1, version=4, jitter=0.25)
+            setup = G.preamble(cfg, dict(window=4)) + [("subscribe", 0, 2, n_topics, 0x1b)]
+            stream = [("rx", 0, "SUBACK", 0, 0x1b, 0), ("rx", 0, "PUBLISH", 1, 4, 0), ("rx", 0, "PINGRESP")]
         elif spec[0] == "huge":
             cfg = dict(profile=3, version=4, jitter=0.25, big=True)
             setup = G.preamble(cfg, dict(window=4)) + [("publish", 0, 1)]
@@ -1362,6 +1379,8 @@ class C03(SessionProp):
             for b in bounds:
                 ones.update(range(max(1, b - 3), min(total, b + 8)))
             ones.update(range(1, total, max(1, total // (200 if total < 1000000 else 12))))
+            if spec[0] == "bigsuback":
+                ones.update(range(1, total))
             for c in sorted(ones):
                 vd = Verdict()
                 self.compare(vd, cfg, setup, stream, [c], ref)
@@ -1428,6 +1447,36 @@ class C14(SessionProp):
             return (cfg, G.preamble(cfg, pre) + tb.decode(ws))
         return st.builds(mk, rude_cfg(), G.pre_strategy(**self.pre_kwargs), G.words(self.max_words if tier == "quick" else 70))
 
+    def check_case(self, case):
+        cfg, ops = case
+        ops = [tup(o) if not (isinstance(o, (list, tuple)) and o and o[0] == "call") else tuple(o) for o in ops]
+        w = sim.run_case(dict(cfg), ops)
+        vd = Verdict()
+        if w.too_big:
+            return vd
+        F = Facts(w)
+        M.mon_c14(w, F, vd)
+        # a forbidden operation has no effect at all: the history must be what it is without it (twin run)
+        forb = getattr(w, "c14_forbidden", [])
+        if forb and not vd.viols:
+            steps = set(st_ for st_, _ in forb)
+            # ops_done holds the executed steps incl. flush pseudo-steps; map back to the given op list
+            keep, k = [], 0
+            for st_, o in enumerate(w.ops_done):
+                if o and o[0] == "flush" and (k >= len(ops) or ops[k] != o):
+                    continue
+                if st_ not in steps:
+                    keep.append(ops[k])
+                k += 1
+            tw = sim.run_case(dict(cfg), keep)
+            skip = set(r for _, r in forb)
+            va, vb = address_view(w, 0, skip_rids=skip), address_view(tw, 0)
+            if va != vb:
+                j = next((i for i in range(min(len(va), len(vb))) if va[i] != vb[i]), min(len(va), len(vb)))
+                vd.bad("C14.forbidden_left_trace", "after a refused operation the history differs from the run without it: event %d is %s, without %s" % (
+                    j, repr(va[j])[:150] if j < len(va) else "<nothing>", repr(vb[j])[:150] if j < len(vb) else "<nothing>"))
+        return vd
+
     STATES = [
         ("idle_new", [("build", 0), ("handlers", 0, 7)]),
         ("connecting", [("build", 0), ("handlers", 0, 7), ("connect", 0, 0, 1, 0)]),
@@ -1465,7 +1514,8 @@ class C14(SessionProp):
         n = 0
         for name, setup in self.STATES:
             for pr in self.PROBES:
-                for second in ([], self.PROBES[(n * 7) % len(self.PROBES)]):
+                for second in ([], self.PROBES[(n * 7) % len(self.PROBES)],
+                               [("fire", 1), ("lose", 0, 1), ("build", 0), ("handlers", 0, 7), ("connect", 0, 0, n % 2, 0), ("rx", 0, "CONNACK", 0, 0), ("settle", 0)]):
                     ops = list(setup) + list(pr) + list(second) + [("advance", 5)]
                     case = (cfg, ops)
                     res.add("exhaustive:matrix", case, self.check_case(case))
@@ -1712,6 +1762,14 @@ def c16_pool(profile, version, state_i):
         pool.append(R.ref_encode("UNSUBACK", dict(id=i), ver))
     for i in (list(w.in_q2[0])[:1] or [1]):
         pool.append(R.ref_encode("PUBREL", dict(id=i), ver))
+    # acknowledgements of the wrong type for an exchange that is pending
+    for i in conn.b_q2[:1] + conn.b_rel[:1]:
+        pool.append(R.ref_encode("PUBACK", dict(id=i), ver))
+    for i in conn.b_q1[:1]:
+        pool.append(R.ref_encode("PUBREC", dict(id=i), ver))
+        pool.append(R.ref_encode("PUBCOMP", dict(id=i), ver))
+    for i in conn.b_q2[:1]:
+        pool.append(R.ref_encode("PUBCOMP", dict(id=i), ver))
     pool.append(R.ref_encode("PUBLISH", dict(topic="a/b", payload=b"hi", qos=0, dup=False, retain=False, id=None), ver))
     pool.append(R.ref_encode("PUBLISH", dict(topic="t/é", payload=b"hello", qos=1, dup=False, retain=True, id=7), ver))
     pool.append(R.ref_encode("PUBLISH", dict(topic="x", payload=b"", qos=2, dup=True, retain=False, id=9), ver))
@@ -1723,6 +1781,10 @@ def c16_pool(profile, version, state_i):
 def mutations(pkt):
     """single-byte replacements, truncations (with and without a fixed length byte), extensions"""
     out = []
+    for nib in range(16):                       # every flag nibble on the first byte (reserved bits, QoS 3, DUP ...)
+        v = (pkt[0] & 0xF0) | nib
+        if v != pkt[0]:
+            out.append(bytes([v]) + pkt[1:])
     for i in range(len(pkt)):
         for v in (0x00, 0xFF, pkt[i] ^ 0x01, pkt[i] ^ 0x80):
             if v != pkt[i]:
